@@ -230,7 +230,7 @@ func generate(rng *rand.Rand) Case {
 						ops = append(ops, prev)
 						cur[name][h] = prev
 					}
-					op.Tags = "latest"
+					op.Tags = gen.Pick(rng, "latest", "latest", "current,latest,lts", "latest,next", "lts,latest")
 					latest[name] = ver
 				}
 			case 1:
@@ -239,7 +239,8 @@ func generate(rng *rand.Rand) Case {
 				op.Deleted = true
 			case 3:
 				if sysName == "NPM" {
-					op.Tags = "next,beta"
+					// Other tags, some of which equal "latest" up to letter case only.
+					op.Tags = gen.Pick(rng, "next,beta", "next,beta", "Latest", "LATEST,next", "current,lts", "not-latest")
 				}
 			}
 			for i := rng.Intn(4); i > 0; i-- {
@@ -257,7 +258,7 @@ func generate(rng *rand.Rand) Case {
 				if cur[name] == nil {
 					cur[name] = map[string]Op{}
 				}
-				if latest[name] == ver && !strings.Contains(op.Tags, "latest") {
+				if latest[name] == ver && !hasExactTag(op.Tags, "latest") {
 					delete(latest, name)
 				}
 				cur[name][ver] = op
@@ -285,6 +286,15 @@ func generate(rng *rand.Rand) Case {
 
 var sampled sync.Once
 
+func hasExactTag(tags, tag string) bool {
+	for _, t := range strings.Split(tags, ",") {
+		if t == tag {
+			return true
+		}
+	}
+	return false
+}
+
 func history(r *ev.Run, c Case) {
 	sys := systems[c.Sys]
 	defer func() {
@@ -300,15 +310,49 @@ func history(r *ev.Run, c Case) {
 		cc := Case{Sys: c.Sys, Ops: c.Ops[:i+1]}
 		r.Violation("C14:"+c.Sys+":"+law, fmt.Sprintf("%s history, step %d (%s %s@%s): %s", c.Sys, i, c.Ops[i].Kind, c.Ops[i].Name, c.Ops[i].Version, what), cc)
 	}
+	// Slices handed out by earlier reads, with what they said at the time: a
+	// later read (of any package) must not change an answer already given.
+	type heldResult struct {
+		step   int
+		render func() string
+		was    string
+		reads  int
+	}
+	var held []heldResult
+	hold := func(i int, render func() string) {
+		held = append(held, heldResult{step: i, render: render, was: render()})
+		if len(held) > 6 {
+			held = held[1:]
+		}
+	}
+	recheck := func(i int) bool {
+		for k := range held {
+			h := &held[k]
+			h.reads++
+			r.Count("held_results_rechecked", 1)
+			if now := h.render(); now != h.was {
+				bad(i, "earlier-result-changed", fmt.Sprintf("the slice returned at step %d (%s %s@%s) read [%s] then and reads [%s] now, %d reads later", h.step, c.Ops[h.step].Kind, c.Ops[h.step].Name, c.Ops[h.step].Version, h.was, now, h.reads))
+				return false
+			}
+		}
+		return true
+	}
 	for i, op := range c.Ops {
 		r.Eval(1)
+		if op.Kind == "add" {
+			// What an addition may do to slices handed out earlier is not part
+			// of the statement: start afresh.
+			held = held[:0]
+		} else if i > 0 && !recheck(i-1) {
+			return
+		}
 		switch op.Kind {
 		case "add":
 			if old := m.vers[op.Name][op.Version]; old != nil && !op.Deleted {
 				if old.tags != op.Tags || old.blocked != op.Blocked || fmt.Sprint(old.reqs) != fmt.Sprint(op.Reqs) {
 					changed = true
 					r.Count("add:replace-changed", 1)
-					if strings.Contains(old.tags, "latest") != strings.Contains(op.Tags, "latest") {
+					if hasExactTag(old.tags, "latest") != hasExactTag(op.Tags, "latest") {
 						r.Count("add:latest-moved", 1)
 					}
 				}
@@ -378,6 +422,13 @@ func history(r *ev.Run, c Case) {
 				bad(i, "versions:list", fmt.Sprintf("returned [%s], model [%s]", strings.Join(gs, " "), strings.Join(ws, " ")))
 				return
 			}
+			hold(i, func() string {
+				var ss []string
+				for _, v := range got {
+					ss = append(ss, v.String())
+				}
+				return strings.Join(ss, " ")
+			})
 		case "requirements":
 			got, err := lc.Requirements(ctx, vk(sys, op.Name, op.Version, resolve.Concrete))
 			e := m.vers[op.Name][op.Version]
@@ -395,6 +446,7 @@ func history(r *ev.Run, c Case) {
 				bad(i, "requirements:list", fmt.Sprintf("returned [%s] (%v), model [%s]", showReqs(got), err, showReqs(want)))
 				return
 			}
+			hold(i, func() string { return showReqs(got) })
 		case "matching":
 			q := vk(sys, op.Name, op.Version, resolve.Requirement)
 			got, err := lc.MatchingVersions(ctx, q)
@@ -447,6 +499,13 @@ func history(r *ev.Run, c Case) {
 				bad(i, "matching:list", fmt.Sprintf("MatchingVersions(%q) returned [%s], model [%s]", op.Version, strings.Join(gs, " "), strings.Join(ws, " ")))
 				return
 			}
+			hold(i, func() string {
+				var ss []string
+				for _, v := range got {
+					ss = append(ss, v.String())
+				}
+				return strings.Join(ss, " ")
+			})
 		}
 	}
 	if changed {
